@@ -43,7 +43,9 @@ def handle (j : Json) : List (String × Json) :=
      ("ml", get "m.must" "must" .expr "urn:m" ++ get "m.must2" "must" .expr "urn:m"),
      ("mt", get "b.tpath" "path" .leafref "urn:b"),
      ("mr", get "m.path" "path" .leafref "urn:m"),
-     ("al", get "a2.must" "must" .expr "urn:a2" ++ get "a2.must2" "must" .expr "urn:a2" ++ get "a2.when" "when/false" .expr "urn:a2" ++ get "a2.augwhen" "when/true" .expr "urn:a2")]
+     ("al", get "a2.must" "must" .expr "urn:a2" ++ get "a2.must2" "must" .expr "urn:a2" ++ get "a2.when" "when/false" .expr "urn:a2" ++ get "a2.augwhen" "when/true" .expr "urn:a2"),
+     ("mk", get "m.keymust" "must" .expr "urn:m" ++ get "m.keywhen" "when/false" .expr "urn:m"),
+     ("bk", get "m.kuwhen" "when/false" .expr "urn:m")]
   let out :=
     if nodes.any (fun (_, os) => os.any (·.isNone)) then "err names-expression+statement"
     else "ok\n" ++ "\n".intercalate (nodes.map fun (n, os) => n ++ ":" ++ ",".intercalate (sortStrs (os.filterMap id)))
